@@ -731,7 +731,7 @@ def _inline_procedures(tree: ast.Module) -> None:
                     is_mod = False
                     if call is not None and selfname is not None and isinstance(call.func, ast.Attribute) and isinstance(call.func.value, ast.Name) and call.func.value.id == selfname:
                         h = helpers.get(call.func.attr)
-                    elif call is not None and mod_helpers and isinstance(call.func, ast.Name) and (form == "expr" or getattr(mod_helpers.get(call.func.id), "_value_proc", False)):
+                    elif call is not None and mod_helpers and form == "expr" and isinstance(call.func, ast.Name):
                         h = mod_helpers.get(call.func.id)
                         is_mod = h is not None
                     if h is None or h is fn or not _proc_inlinable(h, form == "return") or any(isinstance(a_, ast.Starred) for a_ in call.args) or any(k.arg is None for k in call.keywords):
@@ -915,22 +915,6 @@ def _inline_procedures(tree: ast.Module) -> None:
             continue
         n_st = sum(1 for s_ in h.body for x in ast.walk(s_) if isinstance(x, ast.stmt))
         if n_st <= 12:
-            mod_helpers[h.name] = h
-    # ... and private functions with loops that compute one value (`return v` as the last statement only) and have a
-    # single call site whose result is assigned or returned: the loops cannot be seen through as a value, so the
-    # function is a named stretch of its caller (`v = _mirror_repeatedly(v, lo, up, types)`)
-    for h in top:
-        if h.name in mod_helpers or not h.name.startswith("_") or h.name.startswith("__") or name_refs.get(h.name, 0) != 1 or h.decorator_list:
-            continue
-        if not _proc_inlinable(h, False) or _has_early_return(h) or not h.body or not isinstance(h.body[-1], ast.Return) or h.body[-1].value is None:
-            continue
-        if not any(isinstance(x, (ast.For, ast.While)) for x in ast.walk(h)):
-            continue
-        if any(isinstance(x, (ast.FunctionDef, ast.Lambda, ast.Yield, ast.YieldFrom)) for s_ in h.body for x in ast.walk(s_)):
-            continue
-        n_st = sum(1 for s_ in h.body for x in ast.walk(s_) if isinstance(x, ast.stmt))
-        if n_st <= 20:
-            h._value_proc = True
             mod_helpers[h.name] = h
     mod_inlined = set()
     if mod_helpers:
